@@ -58,7 +58,7 @@ def main(argv):
     # floors: fail closed when a rule matches fewer instances than counted by hand
     by_rule = {}
     for i in insts:
-        if i.status in ('ok', 'violation'):
+        if i.status in ('ok', 'violation') or (i.status == 'note' and i.nontrivial):
             by_rule[i.rule] = by_rule.get(i.rule, 0) + 1
     for rule, floor in spec.get('floors', {}).items():
         if by_rule.get(rule, 0) < floor:
